@@ -28,6 +28,7 @@ FAULTS = {
     "raises": ("qartod", "vraise_test", dict(boom=1)),
     "aggregate-entry": ("qartod", "aggregate", None),
     "absent-stream": None,  # a healthy entry configured for a stream id that is not in the data
+    "no-axes-stream": None,  # (xarray:twodims only) a position test on a variable that lives on another dimension without lat/lon
 }
 PLACEMENTS = ("same-stream", "other-stream", "other-context", "other-context-window")
 
@@ -37,7 +38,8 @@ META = dict(
          "function rejects [2 kinds], required input (depth) not supplied by the stream, function raising while "
          "evaluating, the 'aggregate' entry, stream id absent from the data, listed before and after the healthy stream): in the same stream in every order "
          "relative to the healthy entries, in another stream, in another context without and with a window; on each of "
-         "the 9 front-end variants; results collected as list and dict. Oracle: the run and both collections complete "
+         "the 9 front-end variants plus NumpyStream with a dict input and no time axis and XarrayStream with a second variable on another "
+         "dimension without axes (a position test on it cannot run); results collected as list and dict. Oracle: the run and both collections complete "
          "without raising; no failing entry contributes a result; every healthy (stream,test) result equals, bit for "
          "bit, the result of the configuration that contains only that entry, on the same front end. non-trivial = every "
          "case (each contains a fault)",
@@ -72,6 +74,10 @@ def make_contexts(case):
         if f == "absent-stream":
             others.setdefault("ghost", []).append(HEALTHY["gross"])
             fault_keys.append(("ghost", "gross_range_test"))
+            continue
+        if f == "no-axes-stream":
+            others.setdefault("u", []).append(("qartod", "location_test", dict(bbox=[-10, -10, 30, 10])))
+            fault_keys.append(("u", "location_test"))
             continue
         e = FAULTS[f]
         if place == "same-stream":
@@ -189,7 +195,7 @@ def fault_sets(maxf):
 def tasks(tier):
     ts = []
     ns = (4,) if tier == "quick" else (3, 4, 5)
-    for fe in S.FRONTENDS:
+    for fe in S.FRONTENDS + ("numpy:dictnotime", "xarray:twodims"):
         for n in ns:
             for hs in (["gross"], ["spike"], ["probe"], ["press"], ["gross", "spike"], ["spike", "probe"], ["probe", "gross"], ["press", "gross"]):
                 ts.append((fe, n, hs, 2 if tier == "quick" else 3))
@@ -204,7 +210,9 @@ def run_task(task, acc):
         for combo in fault_sets(maxf):
             if "absent-stream" in combo and fe in ("numpy:nd", "qcconfig"):
                 continue
-            real = [f for f in combo if f != "absent-stream"]
+            if "no-axes-stream" in combo and fe != "xarray:twodims":
+                continue
+            real = [f for f in combo if f not in ("absent-stream", "no-axes-stream")]
             # (a) all in the same stream, every order relative to the healthy entries
             k = len(hs) + len(real)
             perms = list(itertools.permutations(range(k))) if len(real) <= 2 else [tuple(range(k)), tuple(reversed(range(k)))]
@@ -217,6 +225,6 @@ def run_task(task, acc):
                 if fe in ("numpy:nd", "qcconfig") and place == "other-stream":
                     continue
                 yield dict(fe=fe, n=n, healthy=hs, faults=[[f, place] for f in combo], order=[])
-                if len(real) >= 2 and combo[0] != "absent-stream":
+                if len(real) >= 2 and combo[0] not in ("absent-stream", "no-axes-stream"):
                     yield dict(fe=fe, n=n, healthy=hs, faults=[[combo[0], "same-stream"]] + [[f, place] for f in combo[1:]], order=[])
     run_cases(acc, gen(), check_case)
